@@ -193,8 +193,32 @@ func instantiate(w *World, assume []*Term, goal *Term) ([]*Term, *Term) {
 			continue
 		}
 		if len(a.Vars) == 1 {
-			for _, c := range cl {
+			seenInst := map[string]bool{}
+			add := func(c *Term) {
+				if seenInst[c.String()] {
+					return
+				}
+				seenInst[c.String()] = true
 				out = append(out, subst(a.Args[0], map[string]*Term{a.Vars[0].Op: c}))
+			}
+			for _, c := range cl {
+				add(c)
+			}
+			// offset solving: the body indexes with (+ A v); for a ground index idx use v := idx - A
+			offs := map[string]*Term{}
+			collectOffsets(a.Args[0], a.Vars[0].Op, offs)
+			n := 0
+			for _, ok := range sortedKeys(offs) {
+				for _, c := range cl {
+					if n > 40 {
+						break
+					}
+					if c.String() == ok {
+						continue
+					}
+					add(w.Sub(c, offs[ok]))
+					n++
+				}
 			}
 		} else {
 			cnt := 0
@@ -210,4 +234,23 @@ func instantiate(w *World, assume []*Term, goal *Term) ([]*Term, *Term) {
 		}
 	}
 	return out, goal
+}
+
+// collectOffsets finds terms A such that the body contains a select index (+ A v) or (+ v A).
+func collectOffsets(t *Term, v string, out map[string]*Term) {
+	if t.Op == "select" && len(t.Args) == 2 {
+		idx := t.Args[1]
+		if (idx.Op == "+" || idx.Op == "bvadd") && len(idx.Args) == 2 {
+			a, b := idx.Args[0], idx.Args[1]
+			if b.Op == v && len(b.Args) == 0 && !strings.Contains(a.String(), v) {
+				out[a.String()] = a
+			}
+			if a.Op == v && len(a.Args) == 0 && !strings.Contains(b.String(), v) {
+				out[b.String()] = b
+			}
+		}
+	}
+	for _, c := range t.Args {
+		collectOffsets(c, v, out)
+	}
 }
